@@ -10,7 +10,8 @@ Definition status_eqb (a b : status) : bool :=
 Definition msg_eqb (a b : msg) : bool :=
   match a, b with
   | MNone, MNone | MCmp, MCmp | MPlayer, MPlayer | MExtractor, MExtractor | MComparator, MComparator
-  | MDied, MDied | MTimeout, MTimeout | MUnload, MUnload | MRefused, MRefused => true
+  | MDied, MDied | MTimeout, MTimeout | MUnload, MUnload | MRefused, MRefused
+  | MFalsy, MFalsy | MStruct, MStruct | MRender, MRender => true
   | _, _ => false
   end.
 Definition tri_eqb (a b : tri) : bool :=
@@ -23,5 +24,6 @@ Definition outcome_eqb (a b : outcome) : bool :=
 Definition cmp_eqb (a b : cmp) : bool :=
   Nat.eqb (label a) (label b) && status_eqb (verdict a) (verdict b) && msg_eqb (message a) (message b)
   && option_eqb Nat.eqb (attached a) (attached b) && Bool.eqb (has_expected a) (has_expected b)
-  && Bool.eqb (has_actual a) (has_actual b) && tri_eqb (exp_exc a) (exp_exc b) && tri_eqb (act_exc a) (act_exc b).
+  && Bool.eqb (has_actual a) (has_actual b) && tri_eqb (exp_exc a) (exp_exc b) && tri_eqb (act_exc a) (act_exc b)
+  && option_eqb Nat.eqb (vdiff a) (vdiff b) && Bool.eqb (vsub a) (vsub b).
 
